@@ -1,5 +1,6 @@
 use std::collections::HashMap;
 use std::fs;
+use std::path::{Component, PathBuf};
 
 use async_lsp::lsp_types::Url;
 
@@ -13,18 +14,36 @@ pub struct Vfs {
     open_documents: HashMap<FilePath, String>,
 }
 
+/// One file, one path: `dir/./b.td` and `dir/sub/../b.td` (as an include statement may spell it)
+/// name the file the editor calls `dir/b.td`. Purely lexical, like the paths editors send.
+fn normalize(path: &FilePath) -> FilePath {
+    let mut normalized = PathBuf::new();
+    for component in path.0.components() {
+        match component {
+            Component::CurDir => {}
+            Component::ParentDir
+                if matches!(normalized.components().next_back(), Some(Component::Normal(_))) =>
+            {
+                normalized.pop();
+            }
+            component => normalized.push(component),
+        }
+    }
+    normalized.as_path().into()
+}
+
 impl Vfs {
     pub fn new() -> Self {
         Self::default()
     }
 
     pub fn file_for_path(&self, path: &FilePath) -> Option<FileId> {
-        self.file_set.file_for_path(path)
+        self.file_set.file_for_path(&normalize(path))
     }
 
     /// Records the text the editor sent for an open document.
     pub fn set_open_document(&mut self, path: FilePath, text: String) {
-        self.open_documents.insert(path, text);
+        self.open_documents.insert(normalize(&path), text);
     }
 
     fn alloc_file_id(&mut self) -> FileId {
@@ -36,6 +55,7 @@ impl Vfs {
 
 impl FileSystem for Vfs {
     fn assign_or_get_file_id(&mut self, path: FilePath) -> FileId {
+        let path = normalize(&path);
         match self.file_set.file_for_path(&path) {
             Some(file_id) => file_id,
             None => {
@@ -52,7 +72,8 @@ impl FileSystem for Vfs {
     }
 
     fn read_content(&self, file_path: &FilePath) -> Option<String> {
-        if let Some(text) = self.open_documents.get(file_path) {
+        // the editor's text wins under whatever spelling the file is asked for
+        if let Some(text) = self.open_documents.get(&normalize(file_path)) {
             return Some(text.clone());
         }
 
